@@ -337,10 +337,31 @@ impl Ctx {
                 // retype
                 let k = self.g.below(nf.max(1));
                 let Some(f) = v[i].ents[j].fields.get_mut(k) else { return false };
-                let new_ty = match f.ty {
+                // the names of the other entities of the namespace (a relation can be pointed at another one)
+                let others: Vec<String> = snapshot[i].ents.iter().map(|e| e.name.clone()).collect();
+                let pick = self.g.below(4);
+                let other = |cur: &String, n: usize| -> Option<String> {
+                    let c: Vec<&String> = others.iter().filter(|o| *o != cur).collect();
+                    if c.is_empty() { None } else { Some(c[n % c.len()].clone()) }
+                };
+                let salt = self.g.below(7);
+                let new_ty = match f.ty.clone() {
                     Ty::Int => Ty::Str,
-                    Ty::Str => Ty::Int,
+                    // types that are stored alike: String / Json / Base64 text
+                    Ty::Str => if pick == 0 { Ty::Json } else if pick == 1 { Ty::B64 } else { Ty::Int },
+                    Ty::Json => if pick < 2 { Ty::Str } else { Ty::Bool },
                     Ty::Bool => Ty::Int,
+                    // a relation retargeted to another entity, or single <-> array of the same entity
+                    Ty::Ent(x) => match (pick, other(&x, salt)) {
+                        (0 | 1, Some(o)) => Ty::Ent(o),
+                        (2, _) => Ty::Arr(x),
+                        _ => Ty::Bool,
+                    },
+                    Ty::Arr(x) => match (pick, other(&x, salt)) {
+                        (0 | 1, Some(o)) => Ty::Arr(o),
+                        (2, _) => Ty::Ent(x),
+                        _ => Ty::Bool,
+                    },
                     _ => Ty::Bool,
                 };
                 f.ty = new_ty;
